@@ -3,7 +3,8 @@
    Each is a plain alias of the definition the theorems are stated about. *)
 From Coq Require Import List NArith.
 From Coq.Strings Require Import Byte.
-From SP Require Import Bytes BaseX Encodings Rand Params Msgpack Crypto Errors Packets Chunker Sign Verify Encrypt Decrypt Signcrypt Armor.
+Import ListNotations.
+From SP Require Import Bytes BaseX Encodings Rand Params Msgpack Crypto Errors Packets Chunker Sign Verify Encrypt Decrypt Signcrypt Armor Streams.
 
 Definition m_byte_to_N := Byte.to_N.
 Definition m_bx_encode := BaseX.encode.
@@ -40,3 +41,19 @@ Definition m_binary_slice := Armor.binary_slice.
 Definition m_armored_prefix := Armor.armored_prefix.
 Definition m_header_marker := Armor.header_marker.
 Definition m_footer_marker := Armor.footer_marker.
+
+(* ---- stream state machines ---- *)
+Fixpoint m_pr_run (sizes : list nat) (st : pr_state) : list pr_result :=
+  match sizes with
+  | [] => []
+  | n :: t => let (r, st') := pr_read n st in r :: m_pr_run t st'
+  end.
+Definition m_pr_init := Streams.pr_init.
+Definition m_pr_until (fuel lim : nat) (s : source) : result bytes := fst (pr_read_until fuel lim (pr_init s) []).
+Fixpoint m_cr_run (sizes : list nat) (st : cr_state) : list (bytes * option err) :=
+  match sizes with
+  | [] => []
+  | n :: t => let (r, st') := cr_read (S (S (length (cr_pending st)))) n st [] in r :: m_cr_run t st'
+  end.
+Definition m_armor_stream := Streams.armor_stream.
+Definition m_bxe_session := Streams.bxe_session.
